@@ -1,10 +1,11 @@
-(* F9 (open finding of C04): FunctionDef::call copies the CALLER's `inputs` binding into the callee's
-   local bindings ("Preserve inputs if present in parent"), where it outranks the captured scope.  A
-   function that captured `inputs` when it was created therefore reads the `inputs` of its call site
-   whenever a parameter or a do-block local of the caller is spelled `inputs`: the hypothesis
-   `lookup fr1 "inputs" = lookup fr2 "inputs"` of the call-site independence theorems is NECESSARY for
-   the code as it is.  Witness: f = x => #a + x created where inputs = {a: 1}; called with 1 from a
-   chain whose `inputs` is {a: 1} and from a chain whose `inputs` is {a: 100} (all values closed). *)
+(* F9 (finding of C04, REPAIRED in this model: fixes/C04-captured-inputs.diff): FunctionDef::call copied the
+   CALLER's `inputs` binding into the callee's local bindings ("Preserve inputs if present in parent"), where
+   it outranked the captured scope, so a function that captured `inputs` when it was created read the
+   `inputs` of a call site that re-binds the name.  The repaired code (Eval.call_passed, "(F9 repaired)")
+   copies the caller's `inputs` only when the function did NOT capture `inputs`; the captured value wins.
+   Witness of the former refutation: f = x => #a + x created where inputs = {a: 1}; called with 1 from a
+   chain whose `inputs` is {a: 1} and from a chain whose `inputs` is {a: 100} (all values closed): before the
+   repair 2 and 101, now 2 at both call sites (f9_results_agree). *)
 From Coq Require Import String List ZArith Bool.
 Require Import Blots.Num Blots.gen.Builtins Blots.Ast Blots.Value Blots.Outcome Blots.Binop
   Blots.Env Blots.Eval Blots.EvalInst Blots.proofs.Closed.
@@ -29,14 +30,22 @@ Proof.
   - intros k v H. vm_compute in H. inversion H; subst v. cbn. auto.
 Qed.
 
-Lemma f9_results_differ :
+(* before the repair: 2 and 101 (f9_results_differ, call_site_independent_any_inputs_refuted) *)
+Lemma f9_results_agree :
   fst (AD true binop_impl builtin_impl 5 (f9_chain 1) VNull f9_fun [VNum (num_of_Z 1)] f9_store)
     = Ok (VNum (num_of_Z 2)) /\
   fst (AD true binop_impl builtin_impl 5 (f9_chain 100) VNull f9_fun [VNum (num_of_Z 1)] f9_store)
-    = Ok (VNum (num_of_Z 101)).
+    = Ok (VNum (num_of_Z 2)).
 Proof. split; vm_compute; reflexivity. Qed.
 
-(* call-site independence WITHOUT the same-`inputs` hypothesis is false of the faithful model *)
+Lemma f9_call_sites_agree :
+  AD true binop_impl builtin_impl 5 (f9_chain 1) VNull f9_fun [VNum (num_of_Z 1)] f9_store =
+  AD true binop_impl builtin_impl 5 (f9_chain 100) VNull f9_fun [VNum (num_of_Z 1)] f9_store.
+Proof. vm_compute. reflexivity. Qed.
+
+(* call-site independence WITHOUT the same-`inputs` hypothesis: refuted by the witness above on the code
+   before the repair; on the repaired model the witness agrees and the statement is kept as a Prop
+   (a closed function reads `inputs` only through its captured scope, so it is expected to hold). *)
 Definition call_site_independent_any_inputs : Prop :=
   forall release d fr1 fr2 this f args st,
     (forall v, lookup fr1 "inputs" = Some v -> closed_value st v) ->
@@ -44,12 +53,3 @@ Definition call_site_independent_any_inputs : Prop :=
     closed_value st this -> closed_value st f -> closed_list st args ->
     AD release binop_impl builtin_impl d fr1 this f args st =
     AD release binop_impl builtin_impl d fr2 this f args st.
-
-Lemma call_site_independent_any_inputs_refuted : ~ call_site_independent_any_inputs.
-Proof.
-  intros H. destruct f9_closed as (Hf & Ht & Ha & Hi).
-  pose proof (H true 5%nat (f9_chain 1) (f9_chain 100) VNull f9_fun [VNum (num_of_Z 1)] f9_store
-                (Hi 1%Z) (Hi 100%Z) Ht Hf Ha) as E.
-  destruct f9_results_differ as (E1 & E2).
-  rewrite E in E1. rewrite E1 in E2. vm_compute in E2. discriminate E2.
-Qed.
